@@ -36,6 +36,8 @@ class Choices:
         self.rng = {s: random.Random(derive_seed(self.seed, s)) for s in STREAMS}
         self.count = {s: 0 for s in STREAMS}
         self.listener = None  # optional callable(stream, n, value, label)
+        self._tape = {}  # stream -> list being recorded
+        self._play = {}  # stream -> [list, position]
 
     # -- primitive -----------------------------------------------------
     def draw(self, stream, n, label=None):
@@ -43,6 +45,16 @@ class Choices:
         n = int(n)
         if n <= 1:
             return 0
+        pl = self._play.get(stream)
+        if pl is not None:
+            # played back from a tape: neither recorded nor consumed from the
+            # source, in generation and in replay mode alike
+            tape, pos = pl
+            v = int(tape[pos]) % n if pos < len(tape) else 0
+            pl[1] = pos + 1
+            if self.listener is not None:
+                self.listener(stream, n, v, label)
+            return v
         if self.replay:
             p = self.pos[stream]
             src = self.src[stream]
@@ -55,6 +67,8 @@ class Choices:
             v = self.rng[stream].randrange(n)
         self.rec[stream].append(v)
         self.count[stream] += 1
+        if stream in self._tape:
+            self._tape[stream].append(v)
         if self.listener is not None:
             self.listener(stream, n, v, label)
         return v
@@ -89,6 +103,20 @@ class Choices:
     def subseed(self, stream, label=None):
         """A 31-bit integer to seed a private numpy RandomState (bulk data)."""
         return self.draw(stream, 2**31 - 1, label)
+
+    # -- tapes: repeat a stretch of decisions (e.g. the same thread schedule
+    #    for two executions that are to be compared)
+    def start_tape(self, stream):
+        self._tape[stream] = []
+
+    def stop_tape(self, stream):
+        return self._tape.pop(stream, [])
+
+    def play_tape(self, stream, tape):
+        self._play[stream] = [list(tape), 0]
+
+    def stop_play(self, stream):
+        self._play.pop(stream, None)
 
     def record(self):
         return {s: list(self.rec[s]) for s in STREAMS}
